@@ -545,8 +545,21 @@ func (d *driver) explore(from int, noEvidence, noMin bool) int {
 		}
 		// replay once more in a fresh process before reporting
 		if ok, why := d.confirm(path, &g.v); !ok {
-			troubles = append(troubles, fmt.Sprintf("replay of %s did not reproduce %s: %s", path, k, why))
-			continue
+			// The reduced scenario lost something the violation needs -
+			// typically what the same process did earlier in the scenario
+			// (a cache warmed by a previous case). Fall back to the whole
+			// scenario as the replay file.
+			fb, _ := json.MarshalIndent(&rp, "", " ")
+			ok2 := false
+			if os.WriteFile(path, fb, 0o644) == nil {
+				ok2, _ = d.confirm(path, &g.v)
+			}
+			if !ok2 {
+				troubles = append(troubles, fmt.Sprintf("replay of %s did not reproduce %s: %s", path, k, why))
+				continue
+			}
+			final = &rp
+			fmt.Printf("(the minimised scenario did not reproduce %s in a fresh process; the replay file is the whole scenario)\n", k)
 		}
 		fmt.Printf("violation: %s (in %d runs): %s\n", k, g.n, oneLine(final.Violation.Detail))
 		violationLines = append(violationLines, fmt.Sprintf("VIOLATION property=%s replay=%s", d.prop, path))
